@@ -20,6 +20,7 @@ package server
 
 import (
 	"fmt"
+	"sort"
 	"strconv"
 	"strings"
 	"sync"
@@ -232,4 +233,106 @@ func TestVerifC02Reconcile(t *testing.T) {
 		}()
 	}
 	wg.Wait()
+}
+
+// ---------------------------------------------------------------- the persisted in-sync set
+//
+// Elections draw from the in-sync set, and the set a server holds after a pause/resume or a snapshot
+// restore is the PERSISTED one (the Isr list of the partition protobuf, rebuilt by RemoveFromISR /
+// AddToISR). TestVerifC02IsrPersist drives the real RemoveFromISR / AddToISR of a partition through
+// every sequence of <= 4 (quick) / 5 (thorough) shrink / expand steps over three followers and
+// compares, after every step: runtime set (GetISR) = persisted list (Partition.Isr) = the set the
+// statement implies (members removed are out, members added are in, nothing else changes); a
+// partition REBUILT from the protobuf (what pause/resume and Restore do) has that same set. A
+// persisted set that still names a removed replica makes that replica electable after the rebuild
+// although it holds none of the messages committed since (Tag isr-persisted-differs).
+
+func c02Set(l []string) string {
+	c := append([]string(nil), l...)
+	sort.Strings(c)
+	return strings.Join(c, ",")
+}
+
+func TestVerifC02IsrPersist(t *testing.T) {
+	res := vNewResult("C02", "the real partition.RemoveFromISR / AddToISR through every sequence of shrink / expand steps over the followers {b,c,d} (leader a): after every step the runtime in-sync set, "+
+		"the persisted protobuf list and a partition rebuilt from the protobuf (pause/resume, snapshot restore) must all be the set the steps imply; non-trivial = at least one shrink followed by another step; distinct by step sequence")
+	defer res.Write(t)
+	s := vStartSingleNode(t, "z", c02recPort+40, nil)
+	defer s.Stop()
+	depth := 4
+	if vThorough() {
+		depth = 5
+	}
+	alphabet := []string{"shrink b", "shrink c", "shrink d", "expand b", "expand c", "expand d"}
+	n := 0
+	var rec func(seq []string)
+	run := func(seq []string) {
+		n++
+		stream := fmt.Sprintf("c02isrp%d", n)
+		p, err := s.newPartition(&proto.Partition{Subject: stream, Stream: stream, ReplicationFactor: 4,
+			Replicas: []string{"a", "b", "c", "d"}, Leader: "a", LeaderEpoch: 1, Isr: []string{"a", "b", "c", "d"}}, true, nil)
+		if err != nil {
+			t.Fatal(err)
+		}
+		defer p.Close()
+		want := map[string]bool{"a": true, "b": true, "c": true, "d": true}
+		shrunk := false
+		nontrivial := false
+		for i, st := range seq {
+			f := strings.Fields(st)
+			if f[0] == "shrink" {
+				err = p.RemoveFromISR(f[1])
+				delete(want, f[1])
+			} else {
+				err = p.AddToISR(f[1])
+				want[f[1]] = true
+			}
+			if shrunk {
+				nontrivial = true
+			}
+			if f[0] == "shrink" {
+				shrunk = true
+			}
+			var wl []string
+			for r := range want {
+				wl = append(wl, r)
+			}
+			p.mu.RLock()
+			persisted := append([]string(nil), p.Partition.Isr...)
+			pb := *p.Partition
+			pb.Isr = append([]string(nil), p.Partition.Isr...)
+			p.mu.RUnlock()
+			runtime := p.GetISR()
+			rebuilt := "?"
+			if q, qerr := s.newPartition(&pb, true, nil); qerr == nil {
+				rebuilt = c02Set(q.GetISR())
+				q.Close()
+			}
+			impl := fmt.Sprintf("runtime={%s} persisted={%s} rebuilt={%s} err=%v", c02Set(runtime), c02Set(persisted), rebuilt, err)
+			if err != nil || c02Set(runtime) != c02Set(wl) || c02Set(persisted) != c02Set(wl) || rebuilt != c02Set(wl) {
+				res.Fail(vFailure{Kind: "spec", Tag: "isr-persisted-differs", Case: seq[:i+1], Impl: []string{impl}, Model: []string{"{" + c02Set(wl) + "}"},
+					Detail: fmt.Sprintf("after step %d (%s) the in-sync set must be {%s} at run time, in the persisted protobuf and in a partition rebuilt from it (pause/resume, snapshot restore): a persisted set that differs decides who can be elected after the rebuild", i, st, c02Set(wl))})
+				break
+			}
+		}
+		res.Count(strings.Join(seq, ";"), nontrivial)
+		res.Dist("len=" + strconv.Itoa(len(seq)))
+	}
+	rec = func(seq []string) {
+		if len(seq) > 0 {
+			run(seq)
+		}
+		if len(seq) == depth || res.Enough() {
+			return
+		}
+		for _, a := range alphabet {
+			rec(append(append([]string(nil), seq...), a))
+		}
+	}
+	if rc := vReplayCase(t); rc != nil && len(rc) > 0 && (strings.HasPrefix(rc[0], "shrink") || strings.HasPrefix(rc[0], "expand")) {
+		run(rc)
+		return
+	}
+	rec(nil)
+	res.Exhaustive = true
 }
